@@ -4270,9 +4270,7 @@ static int64_t rar5_seek_data(struct archive_read *a, int64_t offset,
 	return ARCHIVE_FATAL;
 }
 
-static int rar5_cleanup(struct archive_read *a) {
-	struct rar5* rar = get_context(a);
-
+static void rar5_free_context(struct rar5* rar) {
 	free(rar->cstate.window_buf);
 	free(rar->cstate.filtered_buf);
 	clear_data_ready_stack(rar);
@@ -4283,6 +4281,10 @@ static int rar5_cleanup(struct archive_read *a) {
 	cdeque_free(&rar->cstate.filters);
 
 	free(rar);
+}
+
+static int rar5_cleanup(struct archive_read *a) {
+	rar5_free_context(get_context(a));
 	a->format->data = NULL;
 
 	return ARCHIVE_OK;
@@ -4356,7 +4358,9 @@ int archive_read_support_format_rar5(struct archive *_a) {
 	    rar5_has_encrypted_entries);
 
 	if(ret != ARCHIVE_OK) {
-		(void) rar5_cleanup(ar);
+		/* Not registered (e.g. rar5 is installed already): release
+		 * this context; a->format does not refer to it. */
+		rar5_free_context(rar);
 	}
 
 	return ret;
